@@ -25,10 +25,11 @@ T2 = {"?": 0, "O": 9, "C+1": 2, "Fe+10": 4}
 T1SUB = {"?": 3, "C": 1}                       # T1 with keys dropped, nothing else changed
 T1MOD = {"?": 3, "C": 1, "N": 2, "Si": 2}      # T1 with one value changed
 
-PROBES_D = ["[C][#C]", "[N][=N][#N]", "[Si][=C][Branch1][C][O][F]", "[C][C][C][Ring1][Ring1]", "[N+1][=C][O].[Xe][F]",
+PROBES_D = ["[C][nop][#C][nop]", "[C][#C]", "[N][=N][#N]", "[Si][=C][Branch1][C][O][F]", "[C][C][C][Ring1][Ring1]", "[N+1][=C][O].[Xe][F]",
             "[CH1][Branch1][C][Cl][#C]", "[S][=O][=O][=O]", "[C+1][#C]", "[O][=O][F]", "[Fe+10][=C][=C]",
             "[C][=Branch1][C][=O][#N]", "[P][#P][Cl][Cl]"]
-PROBES_E = ["C#N", "c1ccccc1", "[Si](C)(C)(C)C", "O=S(=O)(O)O", "[NH4+]", "C(F)(F)(F)(F)F", "C=[C+]C", "[Fe+10]C"]
+PROBES_E = ["C#N", "c1ccccc1", "[Si](C)(C)(C)C", "O=S(=O)(O)O", "[NH4+]", "C(F)(F)(F)(F)F", "C=[C+]C", "[Fe+10]C",
+            "O=s1cccc1", "Cp1(=O)cccc1", "c1ccc2[nH]ccc2c1"]
 CAP_KEYS = [("C", 0), ("N", 0), ("N", 1), ("Si", 0), ("O", 0), ("F", 0), ("Xe", 0), ("C", 1), ("S", 0), ("Cl", 0),
             ("Fe", 10), ("H", 0), ("P", 0), ("Fe", 0)]
 LRU_KEYS = {"get_bonding_capacity": CAP_KEYS, "get_semantic_robust_alphabet": [()]}
@@ -93,9 +94,23 @@ class Op:
         return self.name
 
 
-def op_set(arg, label=None):
+def _as_kind(arg, kind):
+    import collections
+    if kind == "defaultdict":
+        return collections.defaultdict(int, arg)
+    if kind == "OrderedDict":
+        return collections.OrderedDict(sorted(arg.items(), reverse=True))
+    if kind == "subclass":
+        class Table(dict):
+            def __missing__(self, k):
+                return 7
+        return Table(arg)
+    return copy.deepcopy(arg)
+
+
+def op_set(arg, label=None, kind=None):
     def f(ctx, model):
-        a = copy.deepcopy(arg)
+        a = _as_kind(arg, kind)
         ctx["passed"] = a
         try:
             r = _SF.set_semantic_constraints(a)
@@ -108,10 +123,15 @@ def op_set(arg, label=None):
     return Op("set(%s)" % (label or json.dumps(arg, sort_keys=True)), f, "config")
 
 
+def _unordered(d):
+    return ("dict", tuple(sorted((repr(k), repr(v)) for k, v in d.items()))) if isinstance(d, dict) else repr(d)
+
+
 def _op_get(ctx, model):
     g = _SF.get_semantic_constraints()
     ctx["got"] = g
-    return canon(g), canon(model.table)
+    # equality of tables is dict equality: the order in which the caller listed the keys is not part of it
+    return _unordered(g), _unordered(model.table)
 
 
 def _op_mut_got(ctx, model):
@@ -256,6 +276,8 @@ def op_enc(s, **kw):
 CONFIG_OPS = [
     op_set("default"), op_set("octet_rule"), op_set("hypervalent"), op_set(T1), op_set(T2),
     op_set(T1SUB, "T1-with-keys-dropped"), op_set(T1MOD, "T1-with-one-value-changed"),
+    op_set(T1, "T1-as-defaultdict", "defaultdict"), op_set(T2, "T2-as-OrderedDict-reversed", "OrderedDict"),
+    op_set(T1SUB, "T1SUB-as-dict-subclass-with-__missing__", "subclass"),
     op_set({"C": 4}, "missing-?"), op_set({"?": 1, "Xx": 2}, "bad-element"), op_set({"?": 1, "C": -1}, "negative"),
     op_set({"?": 2, "C": 1, "N": 1.5}, "non-integer-after-valid-entries"), op_set("nope", "unknown-preset"),
     op_set(5, "wrong-type"), op_set({"?": 1, "C+0": 1}, "charge-zero-key"),
@@ -266,7 +288,7 @@ CONFIG_OPS = [
     Op("alphabet", _op_alpha, "config"), Op("mutate-alphabet", _op_mut_alpha, "mutate"),
 ]
 TRANSLATE_OPS = [
-    op_dec("[Si][=C][N+1][Ring1][Ring1]"), op_dec("[C][Xe][Foo]"),
+    op_dec("[Si][=C][N+1][Ring1][Ring1]"), op_dec("[C][Xe][Foo]"), op_dec("[C][nop][#C][nop]"),
     op_dec("[C][C][C][Ring1][Ring1][Branch1][Ring1][C][Foo]"),          # fails with a ring queued and a branch open
     op_dec("[C][C][=Ring1][C].[N][C][C][Ring1][Ring2][CH9]", attribute=True),   # fails in the 2nd fragment, rings pending
     op_dec("[C][Branch1][Ring2][C][Branch1][C][Foo]", attribute=True),            # fails inside a nested branch, attributed
@@ -322,12 +344,25 @@ def ref_probe(table):
     return _REF[k]
 
 
+def _enc_nonstrict():
+    out = []
+    for s in PROBES_E:
+        try:
+            out.append(_SF.encoder(s, strict=False))
+        except _SF.EncoderError:
+            out.append("EncoderError")
+        except Exception as e:
+            out.append("escaped " + type(e).__name__)
+    return out
+
+
 def ref_probe_nonstrict_fresh():
-    """encoder(s, strict=False) on a fresh library, independent of any table"""
+    """encoder(s, strict=False) on a fresh library under its import-time table: C11 promises the same result
+    'regardless of the table', so this single reference applies in every state"""
     k = ("enc-fresh",)
     if k not in _REF:
         H.restore()
-        _REF[k] = [_SF.encoder(s, strict=False) for s in PROBES_E if True]
+        _REF[k] = _enc_nonstrict()
         H.restore()
     return _REF[k]
 
@@ -371,6 +406,7 @@ def check_state(menu, hist, r, use_probes, prop, check_config=True):
         ref_alphabet(model.table)
     if use_probes:
         ref_probe(model.table)
+        ref_probe_nonstrict_fresh()
     if len(_REF) != n0:
         ctx, model, obs = replay(menu, hist)
     names = [menu[i].name for i in hist]
@@ -435,6 +471,13 @@ def check_state(menu, hist, r, use_probes, prop, check_config=True):
                 r.violation("translation-depends-on-history", case,
                             "probe %r returns %r after this history but %r on a fresh library set to the same table" % (
                                 what, got[k], expp[k]))
+            loose, fresh = _enc_nonstrict(), ref_probe_nonstrict_fresh()
+            if loose != fresh:
+                ok = False
+                k = [i for i, (x, y) in enumerate(zip(loose, fresh)) if x != y][0]
+                r.violation("nonstrict-encoder-depends-on-table-or-history", case,
+                            "encoder(%r, strict=False) returns %r in this state but %r on a fresh library (import-time table)" % (
+                                PROBES_E[k], loose[k], fresh[k]))
     if ok:
         r.validated += 1
     return ok
